@@ -426,12 +426,56 @@ def check_pipeline_instances(idx: Index, rep: Report) -> None:
             r.fail(inst, Finding("C18.R5", f.fq, "instance-not-from-own-spec", f"the pass for pipeline entry `{var}` is `{ad.elem[:70]}`, not `<pass>.from_pass_spec({var})`: a pass repeated with different options (`p{{a=1}},q,p{{a=2}}`) gets the instance built for another occurrence, so the printed pipeline re-parses to a different pipeline", f.loc))
 
 
+def check_spec_not_consumed(idx: Index, rep: Report) -> None:
+    """from_spec removes the arguments it has converted from a dictionary (to report the unknown ones): that dictionary must
+    be a private copy, otherwise instantiating a pass empties the ArgSpec it was given and the spec no longer prints / builds
+    the same pass."""
+    r = rep.rule("C18.R6", "from_spec consumes a private copy of the spec's parameters: the dictionary it pops from is built fresh on every path (normalize_parameter_names never returns the spec itself)", floor=1)
+    f = idx.func(AS, "ArgSpecConvertible.from_spec")
+    cfg = CFG(f.node)
+    popped = {unparse(c.func.value) for c in calls_in(f.node) if isinstance(c.func, ast.Attribute) and c.func.attr in ("pop", "popitem", "clear") and isinstance(c.func.value, ast.Name)}  # type: ignore[attr-defined]
+    popped |= {unparse(t.value) for n in walk_local(f.node) if isinstance(n, ast.Delete) for t in n.targets if isinstance(t, ast.Subscript)}
+    if not popped:
+        r.ok(f.fq, f"{f.loc} from_spec does not remove entries from a dictionary")
+        return
+    for d in sorted(popped):
+        src = resolved_text(cfg, ast.Name(id=d, ctx=ast.Load()), cfg.exit)
+        inst = f"{f.fq}:{d}"
+        if re.fullmatch(r"dict\(.*\)|\{.*\}|.*\.copy\(\)", src):
+            r.ok(inst, f"{f.loc} `{d}` is a copy ({src[:50]})")
+            continue
+        m = re.fullmatch(r"(\w+)\.(\w+)\(\)\.parameters", src)
+        if not m:
+            if re.fullmatch(r"\w+\.parameters", src):
+                r.fail(inst, Finding("C18.R6", f.fq, "spec-consumed", f"from_spec removes entries from `{src}`, the dictionary of the ArgSpec it was given: after building a pass from a spec, the spec prints as the bare pass name and builds the all-defaults pass", f.loc))
+                continue
+            raise AnalysisError(f"{f.fq}: origin `{src[:80]}` of the dictionary from_spec removes entries from not understood")
+        h = idx.func(AS, f"ArgSpec.{m.group(2)}")
+        bad = None
+        for rt in [n for n in walk_local(h.node) if isinstance(n, ast.Return)]:
+            v = rt.value
+            fresh = False
+            if isinstance(v, ast.Call) and call_attr(v) == "ArgSpec":
+                pv = next((k.value for k in v.keywords if k.arg == "parameters"), v.args[1] if len(v.args) > 1 else None)
+                if pv is not None:
+                    pt = resolved_text(CFG(h.node), pv, None) if not isinstance(pv, ast.Name) else None
+                    defs_ = [s_.value for s_ in walk_local(h.node) if isinstance(pv, ast.Name) and isinstance(s_, (ast.Assign, ast.AnnAssign)) and unparse(s_.targets[0] if isinstance(s_, ast.Assign) else s_.target) == pv.id and s_.value is not None]
+                    fresh = (bool(defs_) and all(isinstance(x, (ast.Dict, ast.DictComp)) or (isinstance(x, ast.Call) and unparse(x.func).split("[")[0] == "dict") for x in defs_)) or (pt is not None and bool(re.fullmatch(r"dict\(.*\)|\{.*\}", pt)))
+            if not fresh:
+                bad = rt
+        if bad is not None:
+            r.fail(inst, Finding("C18.R6", h.fq, "spec-consumed", f"`{unparse(bad)[:70]}` hands back an ArgSpec that shares its parameter dictionary with the receiver (or is the receiver), and from_spec removes the converted entries from it: the caller's spec is emptied, prints as the bare pass name and builds the all-defaults pass the next time", f"{h.module.relpath}:{bad.lineno}"))
+        else:
+            r.ok(inst, f"{h.loc} {m.group(2)} builds a new dictionary on every path")
+
+
 def check(idx: Index, rep: Report, tier: str) -> str:
     rep.run(check_writer_forms, idx, rep)
     rep.run(check_escapes, idx, rep)
     rep.run(check_empty_values, idx, rep)
     rep.run(check_registry, idx, rep)
     rep.run(check_pipeline_instances, idx, rep)
+    rep.run(check_spec_not_consumed, idx, rep)
     return (
         "Regular-language analysis of each writer form of ArgSpec._spec_parameter_type_str against the first-match token "
         "rules of arg_spec.py and the value parser's type mapping; agreement of the lexer's escape alphabet with the decoder; "
